@@ -178,3 +178,23 @@ pub proof fn lemma_reading_advance(input: Seq<u8>, pre: Seq<u8>, is: int, nn: in
     let r2 = unesc(input.subrange(is + n, input.len() as int));
     assert(vv =~= (pre + b) + r2->Some_0.1);
 }
+// ---- a JSON string token: opening quote at q, body, closing quote. (offset just past the closing quote, bytes denoted)
+pub open spec fn jstr(input: Seq<u8>, q: int) -> Option<(int, Seq<u8>)> {
+    if 0 <= q < input.len() && input[q] == 0x22 {
+        match unesc(input.subrange(q + 1, input.len() as int)) {
+            Some((n, v)) => Some((q + 1 + n + 1, v)),
+            None => None,
+        }
+    } else { None }
+}
+pub proof fn lemma_jstr_bounds(input: Seq<u8>, q: int)
+    ensures jstr(input, q) is Some ==> q + 2 <= jstr(input, q)->Some_0.0 <= input.len()
+        && jstr(input, q)->Some_0.1.len() + 2 <= jstr(input, q)->Some_0.0 - q
+        && input[jstr(input, q)->Some_0.0 - 1] == 0x22
+{
+    if jstr(input, q) is Some {
+        let b = input.subrange(q + 1, input.len() as int);
+        lemma_unesc_bounds(b);
+        assert(b[unesc(b)->Some_0.0] == input[q + 1 + unesc(b)->Some_0.0]);
+    }
+}
